@@ -1599,6 +1599,9 @@ func init() {
 			for i := shard; i < 16; i += nsh {
 				emit(riConcurrent(NewRNG(seed, fmt.Sprintf("ric-%d", i))))
 			}
+			for i := shard; i < 8; i += nsh {
+				emit(riMarshalScenario(NewRNG(seed, fmt.Sprintf("rim-%d", i))))
+			}
 		})
 		// the same concurrent scenarios once more under Go's race detector (a second harness binary
 		// built with -race by ./check): every report is a race on shared state
